@@ -16,18 +16,18 @@
 EXTENDS Integers, Sequences, FiniteSets, TLC
 
 Entries == {"ForecastingHorizon", "cutoff.split", "ensemble.fit", "ensemble.predict", "ensemble.update", "evaluate", "expanding.split", "make_reduction", "multiplexer.fit", "naive.fit", "naive.predict", "naive.update", "pipeline.fit", "pipeline.predict", "poly.fit", "poly.predict", "poly.update", "reduce_direct.fit", "reduce_direct.predict", "reduce_dirrec.fit", "reduce_dirrec.predict", "reduce_multioutput.fit", "reduce_multioutput.predict", "reduce_recursive.fit", "reduce_recursive.predict", "reduce_recursive.update", "sliding.split", "stacking.fit", "temporal_train_test_split", "theta.fit", "tuner.fit", "tuner.predict"}
-Faults == {"array_target", "composite_duplicate_names", "composite_empty", "composite_last_step_not_a_forecaster", "composite_member_not_a_forecaster", "composite_name_clashes_with_parameter", "composite_name_with_dunder", "composite_step_not_a_transformer", "cutoff_beyond_series", "cv_not_a_splitter", "duplicate_horizon", "empty_horizon", "empty_index", "fractional_horizon", "horizon_and_size_both_given", "horizon_differs_from_fit", "initial_window_larger_than_series", "initial_window_not_larger_than_window", "insample_horizon", "missing_horizon", "missing_horizon_after_rejected_fit", "multivariate_target", "none_horizon", "scoring_not_callable", "sp_noninteger", "sp_nonpositive", "start_with_window_false", "step_noninteger", "step_nonpositive", "unknown_selected_forecaster", "unknown_strategy", "unsorted_index", "window_larger_than_series", "window_negative", "window_noninteger", "window_nonpositive", "wrongtype_horizon", "wrongtype_is_relative", "x_index_differs", "x_index_shorter", "x_index_superset"}
+Faults == {"array_target", "composite_duplicate_names", "composite_empty", "composite_last_step_not_a_forecaster", "composite_member_not_a_forecaster", "composite_name_clashes_with_parameter", "composite_name_with_dunder", "composite_step_not_a_transformer", "cutoff_beyond_series", "cv_not_a_splitter", "duplicate_horizon", "empty_horizon", "empty_index", "fractional_horizon", "horizon_and_size_both_given", "horizon_differs_from_fit", "initial_window_larger_than_series", "initial_window_not_larger_than_window", "insample_horizon", "missing_horizon", "missing_horizon_after_rejected_fit", "multivariate_target", "none_horizon", "scoring_not_callable", "seasonal_window_larger_than_series", "sp_noninteger", "sp_nonpositive", "start_with_window_false", "step_noninteger", "step_nonpositive", "unknown_selected_forecaster", "unknown_strategy", "unsorted_index", "window_larger_than_series", "window_negative", "window_noninteger", "window_nonpositive", "wrongtype_horizon", "wrongtype_is_relative", "x_index_differs", "x_index_shorter", "x_index_superset"}
 Applicable(e) ==
     CASE e = "ForecastingHorizon" -> {"duplicate_horizon", "fractional_horizon", "none_horizon", "wrongtype_horizon", "wrongtype_is_relative"}
     [] e = "cutoff.split" -> {"cutoff_beyond_series"}
     [] e = "ensemble.fit" -> {"array_target", "composite_duplicate_names", "composite_empty", "composite_member_not_a_forecaster", "composite_name_clashes_with_parameter", "composite_name_with_dunder", "duplicate_horizon", "empty_horizon", "empty_index", "fractional_horizon", "multivariate_target", "unsorted_index", "wrongtype_horizon", "x_index_differs"}
     [] e = "ensemble.predict" -> {"duplicate_horizon", "empty_horizon", "fractional_horizon", "missing_horizon", "wrongtype_horizon"}
     [] e = "ensemble.update" -> {"array_target", "multivariate_target", "unsorted_index"}
-    [] e = "evaluate" -> {"multivariate_target", "scoring_not_callable", "start_with_window_false", "unknown_strategy", "unsorted_index", "window_larger_than_series"}
+    [] e = "evaluate" -> {"multivariate_target", "scoring_not_callable", "start_with_window_false", "unknown_strategy", "unsorted_index", "window_larger_than_series", "x_index_differs", "x_index_superset"}
     [] e = "expanding.split" -> {"duplicate_horizon", "empty_horizon", "fractional_horizon", "step_noninteger", "step_nonpositive", "unsorted_index", "window_larger_than_series", "window_noninteger", "window_nonpositive", "wrongtype_horizon"}
     [] e = "make_reduction" -> {"unknown_strategy"}
     [] e = "multiplexer.fit" -> {"composite_duplicate_names", "composite_empty", "composite_member_not_a_forecaster", "composite_name_clashes_with_parameter", "composite_name_with_dunder", "unknown_selected_forecaster"}
-    [] e = "naive.fit" -> {"array_target", "duplicate_horizon", "empty_horizon", "empty_index", "fractional_horizon", "multivariate_target", "sp_noninteger", "sp_nonpositive", "unknown_strategy", "unsorted_index", "window_larger_than_series", "window_negative", "window_noninteger", "window_nonpositive", "wrongtype_horizon", "x_index_differs", "x_index_shorter", "x_index_superset"}
+    [] e = "naive.fit" -> {"array_target", "duplicate_horizon", "empty_horizon", "empty_index", "fractional_horizon", "multivariate_target", "seasonal_window_larger_than_series", "sp_noninteger", "sp_nonpositive", "unknown_strategy", "unsorted_index", "window_larger_than_series", "window_negative", "window_noninteger", "window_nonpositive", "wrongtype_horizon", "x_index_differs", "x_index_shorter", "x_index_superset"}
     [] e = "naive.predict" -> {"duplicate_horizon", "empty_horizon", "fractional_horizon", "missing_horizon", "wrongtype_horizon"}
     [] e = "naive.update" -> {"array_target", "multivariate_target", "unsorted_index"}
     [] e = "pipeline.fit" -> {"array_target", "composite_duplicate_names", "composite_last_step_not_a_forecaster", "composite_name_clashes_with_parameter", "composite_name_with_dunder", "composite_step_not_a_transformer", "duplicate_horizon", "empty_horizon", "empty_index", "fractional_horizon", "multivariate_target", "unsorted_index", "wrongtype_horizon"}
@@ -63,15 +63,16 @@ CallClause(c) == IF ~InTable(c) THEN "PairNotInApplicableTable"
                  ELSE IF ~NoFittedStateAfterReject(c) THEN "NoFittedStateAfterReject" ELSE "ControlAccepted"
 
 (* Fault sequences on a forecaster: calls "fit", "predict", "update" and one faulty call "F" (a faulty     *)
-(* fit before anything was fitted, or a faulty predict / update after fit).  The abstract forecaster state   *)
-(* is (fitted, number of accepted data calls); a rejected call stutters on it.                               *)
+(* fit at any point -- also on an already fitted forecaster, which must go on answering from what it had    *)
+(* accepted before --, or a faulty predict / update after fit).  The abstract forecaster state is           *)
+(* (fitted, number of accepted data calls); a rejected call stutters on it.                                  *)
 VARIABLES fitted, ndata, plan
 svars == <<fitted, ndata, plan>>
 SInit == fitted = FALSE /\ ndata = 0 /\ plan = << >>
 Valid(op) == /\ (op \in {"predict", "update"} => fitted)
              /\ fitted' = (fitted \/ op = "fit") /\ ndata' = ndata + (IF op \in {"fit", "update"} THEN 1 ELSE 0)
              /\ plan' = Append(plan, op)
-Faulty(kind) == /\ (kind = "F_fit" => ~fitted) /\ (kind \in {"F_predict", "F_update"} => fitted)
+Faulty(kind) == /\ (kind \in {"F_predict", "F_update"} => fitted)
                 /\ \A i \in DOMAIN plan : plan[i] \notin {"F_fit", "F_predict", "F_update"}    \* one fault per sequence
                 /\ UNCHANGED <<fitted, ndata>> /\ plan' = Append(plan, kind)                     \* rejected: no state change
 =============================================================================
